@@ -3,11 +3,12 @@ CONSTANTS
   Cases <- AllCases
   Expand <- McExpand
   Slice = "halfopen"
+  IndexFrom = "chunk"
   MaxN = 3
   MaxB = 4
   MaxF = 3
   Wide = TRUE
-INVARIANTS TypeOK Conservation Complete BatchShape IdCarried ColsOK FilterIsSelection ChainCommutes
+INVARIANTS TypeOK Conservation Complete BatchShape IdCarried ColsOK PositionIndependent OrderEquivariant OwnIndex FilterIsSelection ChainCommutes
 PROPERTIES Terminates
 CONSTRAINT Emit
 CHECK_DEADLOCK FALSE
